@@ -9,7 +9,7 @@ RULE = ('Engine A: same FULL/DEV spaces as C01 (every subset of the six constrai
         'bounds). Oracle recomputes from raw data: sizes and geo ratio in exact rational arithmetic, volume ratio, '
         'share under either documented reading, budget = closed-form required impact / iroas. Completeness '
         'THRESH: budget / share / volume bounds placed between every two consecutive critical values of the panel '
-        '(all subset optimistic impacts and design impacts, also / iroas, rho_max 0.9); the same for share / volume on a share-DRIFT panel with n_pretest_max = T/2 (bounds between the all-dates and the windowed critical values). REUSE: share / volume thresholds and DEV(4,1) on a data object that already served another matched-markets object admitting a different geo set. Completeness sub-check (inclusiveness of bounds): with no budget range and n_designs >= |feasible set| the exhaustive '
+        '(all subset optimistic impacts and design impacts, also / iroas, rho_max 0.9); the same for share / volume on a share-DRIFT panel with n_pretest_max = T/2 (bounds between the all-dates and the windowed critical values). REUSE: share / volume thresholds and DEV(4,1) on a data object that already served another matched-markets object admitting a different geo set. FLAT: a panel with a geo without variation (designs with undefined score must still be returned when k >= |feasible|). Completeness sub-check (inclusiveness of bounds): with no budget range and n_designs >= |feasible set| the exhaustive '
         'result must contain every reference-feasible design. Non-trivial = a constraint is specified and at least '
         'one legal design of the reference space violates it; distinct = distinct case.')
 ASSUMPTIONS = ['values: fixed integer panels; continuous bounds judged with 1e-9 relative slack, integer bounds exactly',
@@ -32,6 +32,15 @@ def cases(tier, seed):
         for pr in (spaces.PRIORS[2], spaces.PRIORS[0], {'kw': {'n_geos_max': 3, 'volume_ratio_tolerance': 4.0, 'n_designs': 2}, 'op': 'exhaustive_search'}):
             out.append(dict(c, prior=pr, deviations=c['deviations'] + 1))
     out += spaces.reuse_space(pB4, ['volume_ratio_tolerance', 'treatment_share_range', 'n_geos_max', 'budget_range'], {'n_designs': 100}, d=1)
+    # a geo WITHOUT variation (flat / all zero): designs built on it have an undefined correlation and score, but they are
+    # legal and within every constraint, so with n_designs >= |feasible set| they must all be returned (completeness)
+    for variant in ('flatlast', 'zerolast'):
+        pf = {'name': 'B', 'G': 4, 'T': 12, 'variant': variant}
+        for c in spaces.with_methods(spaces.dev_configs(pf, 1, ['treatment_geos_range', 'control_geos_range', 'geo_ratio_tolerance',
+                                                               'volume_ratio_tolerance', 'n_pretest_max'], base_kw={'n_designs': 100},
+                                                        k_values=(), with_matrix_level=False), ('exhaustive_search',)):
+            if spaces.precondition_ok(c):
+                out.append(dict(c, deviations=c['deviations'] + 1))
     if tier == 'thorough':
         out += spaces.threshold_space({'name': 'D', 'G': 5, 'T': 14}, base_kw={'n_designs': 100, 'n_pretest_max': 7},
                                       parts=('share', 'volume'))
